@@ -52,6 +52,9 @@ func c10Alphabet(k int) []c10Sym {
 	a = append(a, c10Sym{"app", -1, "C"}, c10Sym{"write", 0, "C"})
 	// out-of-range values are clamped: a change only if the clamped value differs from the current one
 	a = append(a, c10Sym{"write-over-max", 0, "B"}, c10Sym{"app-over-max", -1, "B"}, c10Sym{"write-over-max", 1, "B"})
+	// the connection sends a read whose application callback blocks, then resets its socket: the accessory cannot
+	// notice the reset before the handler returns, so a dead connection stays registered while later events happen
+	a = append(a, c10Sym{"hang-and-reset", k - 1, ""})
 	return a
 }
 
@@ -71,6 +74,7 @@ type c10Run struct {
 	subs  map[string]bool // "conn/ch"
 	val   map[string]interface{}
 	seq   int
+	gate  chan bool // closed at the end: releases a handler blocked by hang-and-reset
 	fail  func(sig, desc string)
 }
 
@@ -232,6 +236,35 @@ func (r *c10Run) step(sym c10Sym) bool {
 			notify(sym.Ch, v, -1)
 		}
 		ch.UpdateValue(v)
+	case "hang-and-reset":
+		if r.gate != nil {
+			return true // once per history
+		}
+		ch := r.b.ReadOnly.Characteristic
+		entered := make(chan bool, 1)
+		r.gate = make(chan bool)
+		gate := r.gate
+		ch.OnValueGet(func() interface{} {
+			select {
+			case entered <- true:
+			default:
+			}
+			<-gate
+			return "gated"
+		})
+		k := r.conns[sym.Conn]
+		k.Send(refctl.BuildRequest("GET", fmt.Sprintf("/characteristics?id=%d.%d", r.b.Extra.ID, ch.ID), "", nil))
+		select {
+		case <-entered:
+		case <-time.After(5 * time.Second):
+			r.c.Infra("gated read callback not reached")
+		}
+		ch.OnValueGet(nil)
+		k.Close()
+		r.open[sym.Conn] = false
+		for _, ch := range []string{"A", "B", "N"} {
+			delete(r.subs, fmt.Sprintf("%d/%s", sym.Conn, ch))
+		}
 	case "close":
 		r.conns[sym.Conn].Close()
 		r.open[sym.Conn] = false
@@ -312,11 +345,16 @@ func (r *c10Run) step(sym c10Sym) bool {
 }
 
 type c10Case struct {
-	K    int      `json:"k"`
-	Hist []c10Sym `json:"hist"`
+	K      int      `json:"k"`
+	Prefix string   `json:"prefix,omitempty"`
+	Hist   []c10Sym `json:"hist"`
 }
 
-func c10Exec(c *fw.Ctx, k int, hist []c10Sym) bool {
+func c10Exec(c *fw.Ctx, k int, hist []c10Sym) bool { return c10ExecFrom(c, k, "", hist) }
+
+// c10ExecFrom runs a history from an initial state: "" = nobody subscribed; "subscribed" = every connection
+// subscribed to A and B, A changed once and every subscriber was notified.
+func c10ExecFrom(c *fw.Ctx, k int, prefix string, hist []c10Sym) bool {
 	c.Eval(1)
 	c.State(1)
 	c.Trace(1)
@@ -336,17 +374,35 @@ func c10Exec(c *fw.Ctx, k int, hist []c10Sym) bool {
 	}
 	r.fail = func(sig, desc string) {
 		failed = true
-		c.Report(sig, desc+" — history "+strings.Join(names, ", "), c10Case{K: k, Hist: hist})
+		if prefix != "" {
+			sig += "/from:" + prefix
+		}
+		c.Report(sig, desc+" — history "+prefix+" "+strings.Join(names, ", "), c10Case{K: k, Prefix: prefix, Hist: hist})
 	}
 	for i := 0; i < k; i++ {
 		if !r.connect(i) {
 			return false
 		}
 	}
+	if prefix == "subscribed" {
+		for i := 0; i < k; i++ {
+			for _, ch := range []string{"A", "B"} {
+				if !r.step(c10Sym{"sub", i, ch}) {
+					return !failed
+				}
+			}
+		}
+		if !r.step(c10Sym{"app", -1, "A"}) {
+			return !failed
+		}
+	}
 	for _, s := range hist {
 		if !r.step(s) {
 			break
 		}
+	}
+	if r.gate != nil {
+		close(r.gate)
 	}
 	return !failed
 }
@@ -359,6 +415,18 @@ func c10Run1(c *fw.Ctx) {
 	}
 	for _, cf := range cfgs {
 		alpha := c10Alphabet(cf.k)
+		if !c.Thorough() {
+			// quick: drop symbols whose mirror image on the other connection is kept
+			var keep []c10Sym
+			for _, s := range alpha {
+				switch s.String() {
+				case "unsub(c1,B)", "sub(c1,N)", "write(c1,N)", "write-same(c1,A)", "write-two(c1)":
+					continue
+				}
+				keep = append(keep, s)
+			}
+			alpha = keep
+		}
 		sampled := 0
 		exploreTree(c, len(alpha), cf.depth, func(h []int) bool {
 			if len(h) < cf.depth {
@@ -380,6 +448,18 @@ func c10Run1(c *fw.Ctx) {
 			return false
 		})
 		c.Note(fmt.Sprintf("k=%d connections, depth %d, %d symbols", cf.k, cf.depth, len(alpha)))
+		// the same alphabet from the state "everybody subscribed and notified once" (one level less deep)
+		exploreTree(c, len(alpha), cf.depth-1, func(h []int) bool {
+			if len(h) < cf.depth-1 {
+				return false
+			}
+			var hist []c10Sym
+			for _, s := range h {
+				hist = append(hist, alpha[s])
+			}
+			c10ExecFrom(c, cf.k, "subscribed", hist)
+			return false
+		})
 	}
 }
 
@@ -387,12 +467,12 @@ func init() {
 	fw.Register(&fw.Check{
 		ID:    "C10",
 		Level: "model_checking",
-		Rule:  "every history of length 3 with 2 verified controller connections (quick) / length 4 with 2 and length 3 with 3 connections (thorough) over: subscribe, unsubscribe, changing write, non-changing write, a PUT writing two characteristics, application set (changing / non-changing), close, reconnect — on an observable bool of one accessory, an observable int of another, a characteristic without event permission, a second accessory's characteristic with the same instance id as the first, and out-of-range writes that are clamped; real transport over TCP with real pair-verify, fresh system per history. After EVERY event a barrier request on every open connection collects the EVENT messages that arrived; they must equal the reference model (subscription relation × value × open set): exactly one EVENT with the new value per subscribed other connection, none to the originator, to unsubscribed or closed ones, none for unchanged values or characteristics without event permission. A mismatch is re-checked after 20 ms and 500 ms before it counts. states = histories executed, distinct_nontrivial = distinct (event, characteristic, per-connection expected EVENT count pattern) classes",
+		Rule:  "every history of length 3 with 2 verified controller connections (quick) / length 4 with 2 and length 3 with 3 connections (thorough) over: subscribe, unsubscribe, changing write, non-changing write, a PUT writing two characteristics, application set (changing / non-changing), close, reconnect — on an observable bool of one accessory, an observable int of another, a characteristic without event permission, a second accessory's characteristic with the same instance id as the first, and out-of-range writes that are clamped, and a connection whose read blocks in an application callback and which then resets its socket (it stays registered but dead while later events happen); every history also from the non-initial state 'every connection subscribed and notified once' (one level less deep); real transport over TCP with real pair-verify, fresh system per history. After EVERY event a barrier request on every open connection collects the EVENT messages that arrived; they must equal the reference model (subscription relation × value × open set): exactly one EVENT with the new value per subscribed other connection, none to the originator, to unsubscribed or closed ones, none for unchanged values or characteristics without event permission. A mismatch is re-checked after 20 ms and 500 ms before it counts. states = histories executed, distinct_nontrivial = distinct (event, characteristic, per-connection expected EVENT count pattern) classes",
 		Run:   c10Run1,
 		Replay: func(c *fw.Ctx, raw json.RawMessage) {
 			var cas c10Case
 			json.Unmarshal(raw, &cas)
-			c10Exec(c, cas.K, cas.Hist)
+			c10ExecFrom(c, cas.K, cas.Prefix, cas.Hist)
 		},
 		Budget: func(t string) time.Duration {
 			if t == "thorough" {
